@@ -6,7 +6,8 @@ import guards
 CLAIMS = ("R1 in dechunk, a value parsed from the chunk-size line (usize::from_str_radix) reaches an addition only through checked_add/saturating_add (no plain `size + 2` that overflows on a huge hex size); "
           "R2 every slice of the buffer whose bounds derive from the parsed size is dominated by a comparison of the buffer length with a size-derived bound whose failing edge returns None; "
           "R3 the two bytes following a chunk's data are compared (==/!=) with CRLF before being skipped; "
-          "R4 http_get turns a dechunk failure into an error (ok_or_else + ?).")
+          "R4 http_get turns a dechunk failure into an error (ok_or_else + ?); "
+          "R5 what is decoded is everything the peer sent: http_get fills its buffer with read_to_end (propagating its error), or with a read loop that stops only on a zero-length read - never on the buffer's CONTENT (a suffix/needle match knows nothing about chunk framing: the same bytes occur inside chunk data).")
 NOT_DECIDED = "chunk extensions (an implementation may skip them without naming `;`), round-trip equality for all chunkings."
 
 D = "metastore::gravitino::dechunk"
@@ -40,8 +41,9 @@ def run(F, R):
     if not adds:
         R.ok("C41.R1", "dechunk:no-unchecked-arithmetic-on-size", dict(parse_sites=len(parses)))
     # ---- R2
-    idx = [c for c in f.calls() if c.name.rsplit("::", 1)[-1] in ("index", "index_mut") and "[u8]" in (c.self_ty + " ".join(c.argtys)) and from_size(f, c.args[1])]
-    R.floor("C41.R2", "size-derived slice sites", len(idx), 2)
+    PANICKING = ("index", "index_mut", "split_at", "split_at_mut", "split_off", "drain", "truncate", "copy_within", "split_to", "advance")
+    idx = [c for c in f.calls() if c.name.rsplit("::", 1)[-1] in PANICKING and len(c.args) > 1 and ("[u8]" in (c.self_ty + " ".join(c.argtys)) or "Vec<u8>" in (c.self_ty + " ".join(c.argtys))) and from_size(f, c.args[1])]
+    R.floor("C41.R2", "size-derived slice sites", len(idx), 1)
     for n, c in enumerate(sorted(idx, key=lambda c: (c.line, c.bb))):
         gs = guards.guards_of(f, c.bb)
         ok = False
@@ -66,6 +68,11 @@ def run(F, R):
                 ix = derives_from(f, [a], lambda k, x: x if (k == "call" and x.name.rsplit("::", 1)[-1] in ("index", "get")) else None)
                 if ix and len(ix.args) > 1 and from_size(f, ix.args[1]):
                     cmp_ok = True
+        # or: the remainder after a size-derived split is matched against CRLF with strip_prefix/starts_with
+        if last in ("strip_prefix", "starts_with") and "[u8]" in (c.self_ty + " ".join(c.argtys)):
+            sp = derives_from(f, [c.args[0]], lambda k, x: x if (k == "call" and x.name.rsplit("::", 1)[-1] in ("split_at", "split_at_checked", "index", "get")) else None)
+            if sp and len(sp.args) > 1 and from_size(f, sp.args[1]):
+                cmp_ok = True
     crlf = any(l[0] == "bs:\r\n" for l in f.raw["lits"])
     R.check(cmp_ok and crlf, "C41.R3", "dechunk:crlf-after-data", "the two bytes after a chunk's data are skipped without being compared with CRLF (malformed framing is accepted)", f.loc(), dict(size_derived_comparison=cmp_ok, crlf_literal_in_body=crlf))
     # ---- R4
@@ -77,3 +84,29 @@ def run(F, R):
             if u[0] == "call" and u[1].name.rsplit("::", 1)[-1] in ("ok_or_else", "ok_or"):
                 ok = "try" in result_consumers(c.fn, u[1])
         R.check(ok, "C41.R4", f"{c.fn.path}:dechunk-None->Err", "a malformed chunked body is not reported as an error", c.fn.loc(c.bb), dict())
+    # ---- R5
+    R.rule("C41.R5", "K3 loop exits", "the response buffer is complete before it is decoded: read_to_end, or a read loop left only on n == 0")
+    hg = F.fn("metastore::gravitino::http_get")
+    dc = [c for c in hg.calls() if c.name == D]
+    rte = [c for c in hg.calls() if c.name.rsplit("::", 1)[-1] == "read_to_end"]
+    reads = [c for c in hg.calls() if c.name.rsplit("::", 1)[-1] in ("read", "read_buf", "read_exact")]
+    CONTENT = ("ends_with", "starts_with", "windows", "contains", "find", "position", "rfind", "strip_suffix", "last", "split")
+    if rte and dc and all(any(hg.dominates(r.bb, d.bb) for r in rte) for d in dc) and not reads:
+        import kerr
+        okp = all(propagates(result_consumers(hg, r)) for r in rte)
+        R.check(okp, "C41.R5", "http_get:reads-to-eof", "the error of read_to_end is not propagated", hg.loc(rte[0].bb), dict(read_to_end=len(rte)))
+    elif reads:
+        # loop exits that depend on the buffer's content
+        bad5 = []
+        for sb in range(hg.n):
+            si = hg.switch_info(sb)
+            if not si or si[0] != "bool" or not si[1]:
+                continue
+            if not any(hg.path_exists(r.bb, sb) and hg.path_exists(sb, r.bb) for r in reads):
+                continue       # not inside the read loop
+            w = derives_from(hg, ["c:" + si[1]], lambda k, x: (k == "call" and x.name.rsplit("::", 1)[-1] in CONTENT and x) or None)
+            if w:
+                bad5.append((sb, w.name.rsplit("::", 1)[-1]))
+        R.check(not bad5, "C41.R5", "http_get:reads-to-eof", f"the read loop is left on a test of the buffer's content ({sorted({w for b_, w in bad5})}): the terminator's bytes also occur inside chunk data, so a valid response whose TCP segment boundary falls there is cut short and rejected", hg.loc(bad5[0][0]) if bad5 else hg.loc(), dict(read_calls=len(reads)))
+    else:
+        R.undecided("C41.R5", "http_get:reads-to-eof", "neither read_to_end nor a read loop found", hg.loc())
